@@ -6,6 +6,7 @@
 -/
 import Mathlib.Data.Rat.Floor
 import Mathlib.Tactic.Linarith
+import Mathlib.Tactic.Ring
 
 namespace Batchie.Prep
 
@@ -56,5 +57,13 @@ theorem ceilCount_pos {q : ℚ} (hq : 0 < q) {n : ℕ} (hn : 0 < n) : 0 < ceilCo
   have hn' : (0 : ℚ) < n := by exact_mod_cast hn
   have : 0 < (n : ℚ) * q := mul_pos hn' hq
   linarith
+
+/-- S6-C11: over the rationals "training share rounded down" `n - ⌊n·(1-q)⌋` IS the documented `⌈n·q⌉`; the seeded helper that
+    computes it this way differs from `math.ceil(size * fraction)` only by floating-point rounding of `1.0 - fraction` and of the
+    products, which the functional model does not contain (harness-only: exact per-plate count oracle). -/
+theorem ceil_eq_sub_floor_complement (q : ℚ) (n : ℕ) : (n : ℤ) - ⌊(n : ℚ) * (1 - q)⌋ = ⌈(n : ℚ) * q⌉ := by
+  have e : (n : ℚ) * (1 - q) = -((n : ℚ) * q) + (n : ℚ) := by ring
+  rw [e, Int.floor_add_natCast, Int.floor_neg]
+  ring
 
 end Batchie.Prep
